@@ -1105,6 +1105,7 @@ def set_common_charges(sites, new_charges='same', new_names=None, new_mod=None, 
             perm_qind, leg = leg_unsorted.sort()
             perm_flat = leg_unsorted.perm_flat_from_perm_qind(perm_qind)
             perms.append(perm_flat)
+            site.used_sort_charge = True  # add_op should account for the permutation by default
         else:
             leg = leg_unsorted
             perm_flat = None
